@@ -124,6 +124,18 @@ func containmentRule(c *core.Ctx, r *core.Report, perCall bool) {
 			}
 		}
 		if rec == nil {
+			// the call sits in a literal handed to a helper that runs it behind the recovering defer
+			// (`runGuarded(t, func(t *T) { user(t) })`)
+			for _, h := range literalHosts(fn) {
+				if h.rec != nil && !(perCall && an.InLoop(h.call)) {
+					rec = h.rec
+				} else {
+					rec = nil
+					break
+				}
+			}
+		}
+		if rec == nil {
 			r.Violation(key, pos, "call of user code (%s) in %s is not preceded in the same frame by a defer of a function that itself calls recover(): a panic escapes the iteration and kills the worker/process", u.Kind, core.FuncName(fn))
 			continue
 		}
@@ -435,6 +447,10 @@ func init() {
 			frames := map[*ssa.Function]bool{}
 			for _, u := range userCalls(c) {
 				frames[u.Fn] = true
+				// a helper running the literal that holds the user call is such a frame too
+				for _, h := range literalHosts(u.Fn) {
+					frames[h.call.Parent()] = true
+				}
 			}
 			n := 0
 			for _, fn := range c.AllFuncs {
@@ -527,4 +543,67 @@ func resetClearsOnly(c *core.Ctx, r *core.Report, only string) {
 		tot, ok := an.Total(exits, false)
 		r.Check(ok && tot.Lo >= 1, "T.Reset#"+t.name, c.Pos(reset.Pos()), "Reset sets "+t.name+" on every path", "Reset has a path that does not set "+t.name+": state of the previous iteration on this worker leaks into the next one")
 	}
+}
+
+// literalHosts: for a function literal that is only ever handed, as an argument, to helpers of the module which call
+// that parameter synchronously: the calls of the parameter in those helpers, each with the recovering defer that
+// dominates it (nil when there is none).
+type literalHost struct {
+	call ssa.CallInstruction // the helper's call of its function-typed parameter
+	rec  *ssa.Defer
+}
+
+func literalHosts(lit *ssa.Function) []literalHost {
+	if lit == nil || lit.Parent() == nil {
+		return nil
+	}
+	var out []literalHost
+	ok := true
+	an.Instrs(lit.Parent(), func(in ssa.Instruction) {
+		mc, isMC := in.(*ssa.MakeClosure)
+		if !isMC || mc.Fn != ssa.Value(lit) {
+			return
+		}
+		for _, ref := range an.Referrers(mc) {
+			site, isCall := ref.(*ssa.Call)
+			if !isCall {
+				ok = false
+				continue
+			}
+			h := an.Callee(site)
+			if h == nil || !core.InModule(h) || h.Blocks == nil {
+				ok = false
+				continue
+			}
+			for i, a := range site.Call.Args {
+				if a != ssa.Value(mc) || i >= len(h.Params) {
+					continue
+				}
+				for _, hc := range an.AllCalls(h) {
+					if an.Callee(hc) != nil || an.Strip(hc.Common().Value) != ssa.Value(h.Params[i]) {
+						continue
+					}
+					if _, isPlain := hc.(*ssa.Call); !isPlain {
+						ok = false
+						continue
+					}
+					host := literalHost{call: hc}
+					for _, d := range an.AllCalls(h) {
+						df, isDefer := d.(*ssa.Defer)
+						if !isDefer || !an.Dominates(df, hc) {
+							continue
+						}
+						if _, rok := recovering(an.Callee(df)); rok {
+							host.rec = df
+						}
+					}
+					out = append(out, host)
+				}
+			}
+		}
+	})
+	if !ok {
+		return nil
+	}
+	return out
 }
